@@ -4,6 +4,7 @@ CONSTANTS
   GenDepth = 16
   DrainFrom = 11
   BigLens = {}
+  PipeLens = {}
   Full = FALSE
 INVARIANT Emit
 CHECK_DEADLOCK FALSE
